@@ -13,7 +13,7 @@
   hypotheses on the input, assembled from per-pass lemmas `post_P` / `keeps_P` (lean/Cog/NF/*.lean).
 -/
 import Cog.NF.EnumNames
-import Cog.NF.Assemble
+import Cog.NF.Tables
 import Cog.NF.Witness
 import Cog.Gen.Chains
 namespace Cog.C06
@@ -109,6 +109,20 @@ example : let S := Witness.schemas [Witness.obj "E" (.enum [{ name := "1", value
     EnumsNamed S = true ∧ NumericNamesInRange S = true ∧ (∃ S', chain typescriptChain S = .ok S') := by
   refine ⟨by decide, by decide, ?_⟩
   exact ⟨_, rfl⟩
+
+/-! ## Go -/
+
+/-- Go: every enum is a named object — for EVERY well-formed input.
+    `AnonymousEnumToExplicitType` establishes it (it walks every position, map index included, and
+    the objects it creates are enums at top level); the passes before it keep the entry point types
+    leaves, the passes after it create no enum and move none below the top level. -/
+theorem C06_go_EnumsNamed (S S' : Schemas) (hw : wfIR S = true)
+    (h : chain goChain S = .ok S') : EnumsNamed S' = true := by
+  rw [EnumsNamed_iff]
+  exact chain_via (H := EptOkAll) (Q := AllTop qNoEnum) .anonymousEnumToExplicitType
+    keepsEpt keepsShape goChain keepsEpt_sound
+    (fun S S' hH hr => post_AnonymousEnumToExplicitType S S' hH hr)
+    (keepsShape_sound qNoEnum qNoEnum_shape) (by decide) S S' (wfIR_EptOkAll hw) h
 
 /-! ## Python -/
 
